@@ -25,6 +25,10 @@ CHECKS = {
          "TLC itself computes the standard digests (tables derived in TLA+ from the standards, validated against hashlib, the published RIPEMD-160/FIPS/murmur3 vectors and Core's filter vectors) for messages on every padding boundary (thorough: every length 0..260 and 8191..8248), every murmur3 tail length x seed class incl. wider than 32 bits, and Bloom filter histories over sizes 1..36000 / 0..50 hash functions; pycoin must produce identical bytes in the native, PYCOIN_USE_PYTHON_RIPEMD160 and hashlib-without-ripemd configurations; add_item/add_hash160/add_address/add_spendable compared bit for bit after every call.",
          "Trusted: TLC/SANY; SHA-256 and native RIPEMD-160 inside pycoin are hashlib (the spec has its own SHA-256 and was compared with hashlib). Crypto.Hash path absent. Messages >= 2^21 bytes out of reach.",
          "DESIGN.md section 4 C19, notes/C19.md"),
+ "C14": ("TLA+ specs Merkle (root as uninterpreted double-SHA256 term tree), PartialMerkle (BIP37 Build and Verify as a traversal state machine with rejection reasons), BlockWire (80-byte header, block layout); TLC lemmas for every subset; TLC-enumerated proofs and listed corruptions replayed on pycoin's merkle/Block/merkleblock parser; recorded proofs validated by TLC trace spec",
+         "TLC proves for n <= 6 (thorough 9) and all subsets that honest BIP37 proofs verify and yield the matched ids in order and that every listed corruption (hash altered/added/removed at every position, padding bit set, root differing from the header) is rejected, plus merkle-root lemmas (duplication of the last element, commitment to every leaf position, CVE-2012-2459 characterisation) for up to 33 (130) leaves; every enumerated proof, corruption, header boundary value and block (incl. witness patterns and the 252/253 count boundary) is executed on pycoin on BTC and LTC; 1,500 (12,000) seeded proofs with up to 300 leaves are validated as traces.",
+         "Trusted: TLC/SANY, hashlib SHA-256 (C19). Verifier rules Core has but the property does not list (duplicate pair, total_transactions = 0, flag flips that still verify) are tallied, not demanded. Ground truth: vectors in pycoin/merkle.py, the real block in the repository's tests, the developer-reference merkleblock example.",
+         "DESIGN.md section 4 C14, notes/C14.md"),
 }
 
 NOT_APPLICABLE = {
